@@ -148,8 +148,19 @@ def _check_decoder_offsets(bp, res: Result):
     """decode_varint at a position inside a buffer: results are relative to that position, and a position at the very
     end of the buffer is premature end of input like any other"""
     want = _eof_signal(bp, "decode_varint")
-    for prefix in (b"\x08", b"\x08\x01\x10", b"\xff\x01", b""):
-        for tail, val in ((b"\x05", 5), (b"\xac\x02", 300), (b"", None), (b"\x80", None)):
+    from .. import spec as _spec
+
+    prefixes = [b"\x08", b"\x08\x01\x10", b"\xff\x01", b""]
+    # longer buffers: what lies BEFORE the position (and how long the buffer is in total) must not matter
+    for n in (5, 8, 9, 10, 11, 15, 16, 20, 33):
+        prefixes += [b"\x01" * n, (b"\xff\x01" * n)[:n - 1] + b"\x01", bytes((37 * i + 11) % 128 for i in range(n))]
+    tails = [(b"\x05", 5), (b"\xac\x02", 300), (b"", None), (b"\x80", None)]
+    for v in (2 ** 35 + 3, 2 ** 56 + 1, 2 ** 63, 2 ** 64 - 1):
+        tails.append((_spec.enc_varint(v), v))
+    for k in range(1, 10):
+        tails += [(b"\x80" * k, None), (b"\xff" * k, None), (b"\xac" * k, None)]
+    for prefix in prefixes:
+        for tail, val in tails:
             buf = prefix + tail
             pos = len(prefix)
             res.counters["decoder_offset_inputs"] += 1
